@@ -1,5 +1,6 @@
 CONSTANT MaxLen = 2
 CONSTANT MaxLenDeep = 3
+CONSTANT MaxSiblings = 2
 SPECIFICATION MCSpec
 INVARIANT RefOnlyEscapesTwo
 INVARIANT Emit
